@@ -4,7 +4,8 @@
 From Coq Require Import Reals List Permutation.
 Import ListNotations.
 From PD Require Import Model.Num Model.Spectrum Gen.Gen_spectrum
-  Proofs.SpectrumLists Proofs.SpectrumSF Proofs.SpectrumSmooth Proofs.SpectrumDFT4 Proofs.SpectrumDFTSmall Proofs.C16.
+  Proofs.SpectrumLists Proofs.SpectrumSF Proofs.SpectrumSmooth Proofs.SpectrumDFT4 Proofs.SpectrumDFTSmall
+  Proofs.SpectrumDFTAlg Proofs.SpectrumDFTMath Proofs.C16 Proofs.C17 Proofs.SpectrumMathInst.
 Local Open Scope R_scope.
 
 Theorem C16_sf_nonneg : forall (F : dft_oracle) shape x,
@@ -121,6 +122,88 @@ Theorem C16_dft_spec_satisfiable_nd :
              dft_small true [2%nat; 2%nat] x [0%nat; 1%nat]).
 Proof. exact (conj dft_small_spec (conj (or_intror (or_intror eq_refl)) (conj (or_intror (or_intror eq_refl)) dft_small_swap_nontrivial))). Qed.
 Print Assumptions C16_dft_spec_satisfiable_nd.
+
+(* ======================================================================================================
+   The mathematical DFT.  Model.Spectrum.dft_math is the orthonormal n-dimensional discrete Fourier transform of a
+   real field, defined for every shape as iterated 1-d transforms  X_k = N^(-1/2) sum_n z_n exp(-2 pi i k n / N)
+   (complex numbers as pairs of reals).  It is PROVED to satisfy all premises of dft_spec for every shape with
+   positive axis lengths; the theorems below are the C16 theorems for it, with no DFT premise left.  What remains an
+   oracle is only "numpy.fft.fftn computes this transform up to rounding" (checked per sample in props/C16.py). *)
+
+(* orthogonality of the characters of Z/N *)
+Theorem C16_dft_character_orthogonality : forall N n m, (n < N)%nat -> (m < N)%nat ->
+  rsum (map (fun k => cos (angle N k n - angle N k m)) (seq 0 N)) = (if Nat.eq_dec n m then INR N else 0) /\
+  rsum (map (fun k => sin (angle N k n - angle N k m)) (seq 0 N)) = 0.
+Proof. exact character_orthogonality. Qed.
+Print Assumptions C16_dft_character_orthogonality.
+
+(* Parseval for complex fields in any dimension *)
+Theorem C16_dft_parseval_nd : forall shape, Forall (fun n => (0 < n)%nat) shape -> forall z,
+  sum_over (all_idx shape) (fun k => cabs2 (dftc shape z k)) = sum_over (all_idx shape) (fun n => cabs2 (z n)).
+Proof. exact dftc_parseval. Qed.
+Print Assumptions C16_dft_parseval_nd.
+
+(* all six identities (Parseval, zero mode, homogeneity, cyclic shift, reflection, axis transposition) *)
+Theorem C16_dft_math_spec : dft_spec dom_math dft_math.
+Proof. exact dft_math_spec. Qed.
+Print Assumptions C16_dft_math_spec.
+
+Theorem C16_math_sf_sum : forall shape x, Forall (fun n => (0 < n)%nat) shape -> sumsq shape x <> 0 ->
+  rsum (sf_list dft_math shape x) = 1 - total shape x ^ 2 / (INR (size_of shape) * sumsq shape x).
+Proof. exact m_sf_sum. Qed.
+Print Assumptions C16_math_sf_sum.
+
+Theorem C16_math_sf_scale_inv : forall shape c x, Forall (fun n => (0 < n)%nat) shape -> c <> 0 -> sumsq shape x <> 0 ->
+  sf_list dft_math shape (fun n => c * x n) = sf_list dft_math shape x.
+Proof. exact m_sf_scale_inv. Qed.
+Print Assumptions C16_math_sf_scale_inv.
+
+Theorem C16_math_sf_shift_inv : forall shape s x, Forall (fun n => (0 < n)%nat) shape ->
+  sf_list dft_math shape (fun n => x (shift_idx shape s n)) = sf_list dft_math shape x.
+Proof. exact m_sf_shift_inv. Qed.
+Print Assumptions C16_math_sf_shift_inv.
+
+Theorem C16_math_sf_reflect_perm : forall shape h ax x, Forall (fun n => (0 < n)%nat) shape ->
+  Permutation (sf_pairs dft_math shape h (fun n => x (reflect_idx shape ax n))) (sf_pairs dft_math shape h x).
+Proof. exact m_sf_reflect_perm. Qed.
+Print Assumptions C16_math_sf_reflect_perm.
+
+Theorem C16_math_sf_flip_perm : forall shape h ax s x, Forall (fun n => (0 < n)%nat) shape ->
+  Permutation (sf_pairs dft_math shape h (fun n => x (reflect_idx shape ax (shift_idx shape s n))))
+              (sf_pairs dft_math shape h x).
+Proof. exact m_sf_flip_perm. Qed.
+Print Assumptions C16_math_sf_flip_perm.
+
+Theorem C16_math_sf_axis_perm : forall i shape h x, Forall (fun n => (0 < n)%nat) shape -> length h = length shape ->
+  Permutation (sf_pairs dft_math (swap_at i shape) (swap_at i h) (fun n => x (swap_at i n)))
+              (sf_pairs dft_math shape h x).
+Proof. exact m_sf_axis_perm. Qed.
+Print Assumptions C16_math_sf_axis_perm.
+
+Theorem C16_math_sf_axis_perm_seq : forall swaps shape h x,
+  Forall (fun n => (0 < n)%nat) shape -> length h = length shape ->
+  Permutation (sf_pairs dft_math (fold_left (fun l i => swap_at i l) swaps shape)
+                                 (fold_left (fun l i => swap_at i l) swaps h)
+                                 (fun n => x (fold_right (fun i m => swap_at i m) n swaps)))
+              (sf_pairs dft_math shape h x).
+Proof. exact m_sf_axis_perm_seq. Qed.
+Print Assumptions C16_math_sf_axis_perm_seq.
+
+Theorem C16_math_smoothed_shares_invariances : forall shape h x on au nw az sm wn,
+  Forall (fun n => (0 < n)%nat) shape -> sumsq shape x <> 0 ->
+  (forall c, c <> 0 ->
+     gsf_model dft_math shape h (fun n => c * x n) on au nw az sm wn = gsf_model dft_math shape h x on au nw az sm wn) /\
+  (forall s,
+     gsf_model dft_math shape h (fun n => x (shift_idx shape s n)) on au nw az sm wn =
+     gsf_model dft_math shape h x on au nw az sm wn) /\
+  (forall ax,
+     gsf_model dft_math shape h (fun n => x (reflect_idx shape ax n)) true au nw az sm wn =
+     gsf_model dft_math shape h x true au nw az sm wn) /\
+  (forall i, length h = length shape ->
+     gsf_model dft_math (swap_at i shape) (swap_at i h) (fun n => x (swap_at i n)) true au nw az sm wn =
+     gsf_model dft_math shape h x true au nw az sm wn).
+Proof. exact m_smoothed_shares_invariances. Qed.
+Print Assumptions C16_math_smoothed_shares_invariances.
 
 Example C16_nonvacuous :
   dft_spec dom4 dft4 /\ dom4 [4%nat] /\ dom4 (swap_at 0 [4%nat]) /\
